@@ -471,6 +471,7 @@ fn cmd_server(args: &[String], seed: u64, n: u64, out: &str, summary: &str) {
                 "faulty" => gen_faulty(&mut rr, sid),
                 "fair" => gen_fair(&mut rr, sid, false),
                 "fairtrans" => gen_fair(&mut rr, sid, true),
+                "fairmixed" => gen_fair_mixed(&mut rr, sid),
                 o => panic!("unknown mode {o}"),
             });
         }
